@@ -357,3 +357,75 @@ func (in *Interp) bigDivCheck(y *Term, pos token.Pos) {
 		in.goPanic(pos, "division by zero", nil)
 	}
 }
+
+func init() {
+	M := pkgMath
+	reg("("+M+".Int).Marshal", func(in *Interp, fn *ssa.Function, a []Value, pos token.Pos) Value {
+		v := a[0].(BigInt)
+		if v.T == nil {
+			v = BigInt{Int64(0)}
+		}
+		return tup(blobSlice(v, "math.Int"), Iface{})
+	})
+	reg("(*"+M+".Int).Unmarshal", func(in *Interp, fn *ssa.Function, a []Value, pos token.Pos) Value {
+		p := a[0].(*Value)
+		b, ok, empty := blobOf(a[1])
+		switch {
+		case empty:
+			in.write(p, BigInt{Int64(0)})
+		case ok:
+			in.write(p, b.V)
+		default:
+			in.unsupp("math.Int.Unmarshal of raw bytes")
+		}
+		return Iface{}
+	})
+	reg("("+M+".LegacyDec).Marshal", func(in *Interp, fn *ssa.Function, a []Value, pos token.Pos) Value {
+		return tup(blobSlice(a[0], "math.LegacyDec"), Iface{})
+	})
+	reg("(*"+M+".LegacyDec).Unmarshal", func(in *Interp, fn *ssa.Function, a []Value, pos token.Pos) Value {
+		p := a[0].(*Value)
+		b, ok, empty := blobOf(a[1])
+		switch {
+		case empty:
+			in.write(p, Dec{Int64(0)})
+		case ok:
+			in.write(p, b.V)
+		default:
+			in.unsupp("LegacyDec.Unmarshal of raw bytes")
+		}
+		return Iface{}
+	})
+	AC := "(github.com/cosmos/cosmos-sdk/codec/address.Bech32Codec)."
+	reg(AC+"StringToBytes", func(in *Interp, fn *ssa.Function, a []Value, pos token.Pos) Value {
+		prefix := strOf(in, a[0].(Struct)[0])
+		str := strOf(in, a[1])
+		fail := func(msg string) Value { return tup(Slice{}, errIface(&ErrVal{Msg: msg})) }
+		if len(strings.TrimSpace(str)) == 0 {
+			return fail("empty address string is not allowed")
+		}
+		hrp, bz, err := Bech32Decode(str)
+		if err != nil {
+			return fail(err.Error())
+		}
+		if hrp != prefix {
+			return fail("hrp does not match bech32 prefix")
+		}
+		if len(bz) == 0 || len(bz) > 255 {
+			return fail("invalid address length")
+		}
+		return tup(sliceOfBytes(bz), Iface{})
+	})
+	reg(AC+"BytesToString", func(in *Interp, fn *ssa.Function, a []Value, pos token.Pos) Value {
+		prefix := strOf(in, a[0].(Struct)[0])
+		s := a[1].(Slice)
+		if len(s.V) == 0 {
+			return tup("", Iface{})
+		}
+		b, ok := bytesOf(s.V)
+		if !ok {
+			return tup(&SymStr{Desc: "bech32(symbolic)"}, Iface{})
+		}
+		return tup(Bech32Encode(prefix, b), Iface{})
+	})
+}
